@@ -1,6 +1,7 @@
 package main
 
 import (
+	"go/token"
 	"fmt"
 	"strings"
 
@@ -23,6 +24,7 @@ func runC15(c *Ctx) {
 	c15R2(c, ms)
 	c15R3(c, ms)
 	indexResolution(c, "R4")
+	equalityAgreement(c, "R6")
 	c.shared("R5", "C09/R3", "push stores a copy of its argument made by copyValue: the stored element is a value of the same kind in a cell of its own (a null that shares the caller's cell changes when the caller's variable does)", keyHas("copy Value", "copy-on-insert ExprCall.Args"), c09R3)
 }
 
@@ -189,7 +191,7 @@ func dedup(xs []string) []string {
 }
 
 func c15R2(c *Ctx, ms []nativeMethod) {
-	c.note("R2 method-table (array): push: arity 1, this.Array = append(this.Array, fresh cell of v[0]), returns this; pop: arity 0, null when empty, else element len-1 and this.Array[:len-1]; popfirst: element 0 and this.Array[1:]; length: len(this.Array); contains: arity 1, true at the first element with v[0].Compare(element) == 0 in slice order, else false.")
+	c.note("R2 method-table (array): push: arity 1, this.Array = append(this.Array, fresh cell of v[0]), returns this; pop: arity 0, null when empty, else element len-1 and this.Array[:len-1]; popfirst: element 0 and this.Array[1:]; length: len(this.Array); contains: arity 1, true at the first element with v[0].Equals(element) in slice order, else false.")
 	methodTableComplete(c, "R2", ms, "array")
 	nn := []string{"this != nil"}
 	type row struct {
@@ -205,7 +207,7 @@ func c15R2(c *Ctx, ms []nativeMethod) {
 			Guards: map[string][]string{"&this.Array[0].Value": {"lang.checkArgCount(v, 0) == nil", "len(this.Array) != 0", "this != nil"}, "&lang.NewValue(nil)": {"len(this.Array) == 0"}}, Source: "popfirst removes and returns the first element (null when empty)"}},
 		{"contains", armSpec{Results: []string{"nil", "&lang.NewValue(true)", "&lang.NewValue(false)"}, Effects: []string{},
 			Guards: map[string][]string{
-				"&lang.NewValue(true)":  {"(*lang.Value).Compare(v[0], &this.Array[i@this.Array].Value)#0 == 0", "(*lang.Value).Compare(v[0], &this.Array[i@this.Array].Value)#1 == nil", "lang.checkArgCount(v, 1) == nil"},
+				"&lang.NewValue(true)":  {"(*lang.Value).Equals(v[0], &this.Array[i@this.Array].Value)#0", "(*lang.Value).Equals(v[0], &this.Array[i@this.Array].Value)#1 == nil", "lang.checkArgCount(v, 1) == nil"},
 				"&lang.NewValue(false)": {"i@this.Array >= len(this.Array)", "lang.checkArgCount(v, 1) == nil"}},
 			Source: "contains(v) agrees with == applied to each element in order"}},
 	}
@@ -454,4 +456,84 @@ func indexResolution(c *Ctx, rule string) {
 		}
 	})
 	c.check(loopOK, rule, "fill-loop-bound", p.Pos(sm.Pos()), "the fill loop runs while i <= index", "no fill loop of the form `for i := len; i <= index; i++` found")
+}
+
+// equalityAgreement: every place that decides "equal" by Compare(...) == 0 must first exclude unset
+// operands, as the == operator does (an unset value is equal to nothing, not even to 0 or itself);
+// otherwise contains / literal patterns disagree with ==.
+func equalityAgreement(c *Ctx, rule string) {
+	p := c.P
+	c.note("%s equality-agreement: Compare coerces an unset value to 0, the == operator answers false for it. Every call of (*Value).Compare whose result is tested against 0 for equality (contains, literal match patterns, == itself) must be dominated by the facts `operand.Tag != ValueUnknown` for both operands; calls used for ordering only (sort) are exempt.", rule)
+	cmpFn := p.LangFunc("(*Value).Compare")
+	if cmpFn == nil {
+		c.undecided(rule, "Compare", "", "anchor (*Value).Compare not found")
+		return
+	}
+	unk := ""
+	for v, n := range constNames(p.Lang.Types, "ValueTag") {
+		if n == "ValueUnknown" {
+			unk = fmt.Sprint(v)
+		}
+	}
+	nEq, nOrd := 0, 0
+	for _, cs := range p.CallSitesOf(cmpFn) {
+		call, ok := cs.(*ssa.Call)
+		fn := cs.Parent()
+		if !ok || p.inTestFile(fn) {
+			continue
+		}
+		isEq := false
+		for _, r := range referrersOf(call) {
+			ex, ok := r.(*ssa.Extract)
+			if !ok || ex.Index != 0 {
+				continue
+			}
+			for _, u := range referrersOf(ex) {
+				if b, ok := u.(*ssa.BinOp); ok && (b.Op == token.EQL || b.Op == token.NEQ) {
+					isEq = true
+				}
+			}
+		}
+		if !isEq {
+			nOrd++
+			continue
+		}
+		nEq++
+		// facts: tag loads known to differ from ValueUnknown
+		excluded := map[string]bool{}
+		for _, rl := range FactsOf(fn).At(call.Block()).Rels() {
+			if rl.op != relNE {
+				continue
+			}
+			k, isC := rl.y.(*ssa.Const)
+			if !isC || k.Value == nil || k.Value.ExactString() != unk {
+				continue
+			}
+			if sf, ok := loadedField(rl.x); ok && sf.Name == "Tag" {
+				excluded[p.RenderShort(sf.Base)] = true
+			}
+		}
+		args := call.Call.Args
+		var missing []string
+		for _, a := range args[:2] {
+			if !excluded[p.RenderShort(a)] {
+				missing = append(missing, p.RenderShort(a))
+			}
+		}
+		key := fmt.Sprintf("equality-by-Compare #%d in %s", nEq, shortName(fn))
+		c.check(len(missing) == 0, rule, key, p.InstrPos(call), "both operands are known not to be unset", "Compare(...) == 0 is used as the equality verdict although {"+strings.Join(missing, ", ")+"} may be unset: Compare coerces unset to 0 where == answers false, so this site disagrees with the == operator (e.g. a.contains(0) / `match (u) { 0 => … }` for an unset element / subject)")
+	}
+	if eq := p.LangFunc("(*Value).Equals"); eq != nil {
+		c.checkArm(rule, "Value.Equals", eq, armSpec{
+			Results: []string{"false", "((*lang.Value).Compare(v, b)#0 == 0)"},
+			Effects: []string{},
+			Guards: map[string][]string{"((*lang.Value).Compare(v, b)#0 == 0)": {"v.Tag != ValueUnknown", "b.Tag != ValueUnknown", "(*lang.Value).Compare(v, b)#1 == nil"}},
+			Source:  "the == relation: false when either side is unset, else Compare == 0",
+		})
+	}
+	c.Analysed["compare_equality_sites"] = nEq
+	c.Analysed["compare_ordering_sites"] = nOrd
+	if nEq < 1 {
+		c.undecided(rule, "instance-floor", "", "no equality use of Compare found (== is known to use it)")
+	}
 }
